@@ -10,6 +10,9 @@ imports this module in every interpreter of the run: the CLI process and, becaus
   finish   list of chain numbers: chain finish[j] does not return before finish[j-1] has returned
   sleep    {chain: [seconds before the chain body, seconds after it]}
   timeout  upper bound in seconds for each wait (a wait that times out is recorded, never fatal)
+  oneworker  seconds: every pool worker except the first one to come up sleeps this long at interpreter start, so
+           that the first worker takes all chains one after the other (the schedule a slow `spawn` produces on a busy
+           machine for short chains): a chain's trace must not depend on what its process ran before
 
 `phyclone.run.run_phyclone_chain` is wrapped when `phyclone.run` is imported (lazily, through an
 import hook, so helper processes that never import phyclone pay nothing).  The wrapper changes
@@ -134,6 +137,15 @@ if _SPEC:
         if _spec.get("cpus") and hasattr(os, "sched_setaffinity"):
             try:
                 os.sched_setaffinity(0, set(_spec["cpus"]))
+            except OSError:
+                pass
+        if _spec.get("oneworker") and _spec.get("dir") and "--multiprocessing-fork" in sys.argv:
+            try:
+                _fd = os.open(os.path.join(_spec["dir"], "first_worker"), os.O_CREAT | os.O_EXCL | os.O_WRONLY)
+                os.write(_fd, str(os.getpid()).encode())
+                os.close(_fd)
+            except FileExistsError:
+                time.sleep(float(_spec["oneworker"]))
             except OSError:
                 pass
         _install(_spec)
